@@ -437,7 +437,8 @@ func frameMsg(b []byte) util.Message {
 	return m
 }
 
-// helloFrame builds a hello message of about n bytes (8, or 12+4k) that the real parser decodes and re-encodes exactly.
+// helloFrame builds a conformant hello message of about n bytes (8, or 8 + one padded version-bitmap element) that the
+// real parser decodes and re-encodes exactly.
 func helloFrame(n int, tag uint32) []byte {
 	if n < 12 {
 		b := make([]byte, 8)
@@ -447,7 +448,8 @@ func helloFrame(n int, tag uint32) []byte {
 		return b
 	}
 	k := (n - 12) / 4
-	b := make([]byte, 12+4*k)
+	// one version-bitmap element of k bitmaps: length 4+4k, zero-padded to a multiple of 8 (OpenFlow 1.3, 7.5.1)
+	b := make([]byte, 8+(4+4*k+7)/8*8)
 	b[0], b[1] = 4, 0
 	binary.BigEndian.PutUint16(b[2:], uint16(len(b)))
 	binary.BigEndian.PutUint32(b[4:], tag)
